@@ -147,11 +147,14 @@ class AnsiDecoder:
                     _params, semicolon, link = osc[2:].partition(";")
                     if semicolon:
                         self.style = self.style.update_link(link or None)
-            elif sgr:
+            elif sgr is not None and osc is None:
                 # Translate in to semi-colon separated codes
                 # Ignore invalid codes, because we want to be lenient
+                # An empty parameter (as in "ESC [ m") means 0
                 codes = [
-                    min(255, int(_code)) for _code in sgr.split(";") if _code.isdecimal()
+                    min(255, int(_code or "0"))
+                    for _code in sgr.split(";")
+                    if _code.isdecimal() or not _code
                 ]
                 iter_codes = iter(codes)
                 for code in iter_codes:
